@@ -115,6 +115,9 @@ def boot(hostname, boot_port=consts.BOOT_PORT,
         struct_data = f.read()
     structs = struct_file.read_struct_file(struct_data)
     sv = structs[b"sv"]
+    # Work on a copy: the default value is shared between calls and the
+    # caller's dictionary is not ours to modify.
+    sv_overrides = dict(sv_overrides)
     sv_overrides.update(kwargs)  # Allow non-explicit keyword arguments for SV
     sv.update_default_values(**sv_overrides)
     sv.update_default_values(unix_time=int(time.time()),
